@@ -27,7 +27,7 @@ PINNED = {
     "C07": ["c07_myers_valid_any_clock", "c07_myers_completes_any_clock", "c07_lcs_valid_any_clock", "c07_lcs_completes_any_clock", "c07_snake_none_only_by_deadline", "c07_alg_parametric", "c07_never_expire_raw", "c07_never_expire_capture", "c07_never_expire_textdiff", "c07_never_expire_ctr", "c07_none_no_probe", "c07_post_expiry_bound", "c07_post_bound_values", "c07_post_expiry_bound_any_alg", "c07_clock_at_mono"],
     "C08": ["c08_myers_finish_last", "c08_lcs_finish_last", "c08_replace_acts_by_emitting", "c08_replace_inner_failure", "c08_compact_hook", "c08_no_finish_forwards", "c08_no_finish_body", "c08_default_replace", "c08_default_replace_trace", "c08_compact_hook_events", "c08_replace_over_compact"],
     "C09": ["c09_capture_alternating", "c09_replace_alternates", "c09_checker_reflects", "c09_capture_normal_form", "c09_capture_insert_latest", "c09_compact_replace_normal_form", "c09_needs_nonempty"],
-    "C10": ["c10_compact_preserves", "c10_compact_terminates", "c10_compact_total", "c10_compact_hook", "c10_delete_never_slides_up", "c10_replace_exact", "c10_compact_exact_repaired"],
+    "C10": ["c10_compact_preserves", "c10_compact_terminates", "c10_compact_total", "c10_compact_hook", "c10_delete_never_slides_up", "c10_replace_exact", "c10_compact_exact_repaired", "c10_replace_finish_resets", "c10_replace_twice_same"],
     "C11": ["c11_exact_repaired", "c11_exact_outside_known_class", "c11_replace_exact", "c11_compact_exact_repaired", "c11_checker_reflects", "c11_refuted"],
     "C12": ["c12_eq_ref", "c12_eq_ref_sep", "c12_alternating_sep", "c12_G0", "c12_G1", "c12_G2", "c12_G5", "c12_G6", "c12_G6_count", "c12_G4", "c12_G4_unique", "c12_G4_first_eq", "c12_G4_first_chg", "c12_G4_last_eq", "c12_G4_last_chg", "c12_check_groups", "c12_model_spec", "c12_model_check"],
     "C13": ["c13_iter_changes_spec", "c13_all_changes_concat", "c13_expand_op_shape", "c13_iter_slices_spec", "c13_iter_slices_total", "c13_apply_capture_id"],
